@@ -113,9 +113,10 @@ F = [
  ("D24", "Exp no longer rounds its argument to the working precision",
   "Exp rounded its argument to the working precision: Exp(9.123456789012345) at Precision 4 returned 9164 (true 9167.8)",
   {"C12": [ar("exp", ctx(4, 1000, -1000), dec(9123456789012345, -15))]}),
- ("D25", None,
-  "Exp reports Overflow (or Underflow) for every |x| >= 23000 once |x| exceeds 23*Precision, whatever the context's exponent range: Exp(23000.9) with MaxExponent=100000 returns Infinity although e^23000.9 = 1.45E+9989 is representable (context.go Exp, stage 1: the working precision is only raised while |x|/23 < 1000)",
-  {"C12": [ar("exp", ctx(1, 100000, -100000, "down"), dec(230009, -1))]}),
+ ("D25", "Exp reduces arguments beyond the reach of its series by multiples of ln(10)",
+  "Exp reported Overflow (or Underflow) for every |x| >= 23000 once |x| exceeded 23*Precision, whatever the context's exponent range: Exp(23000.9) with MaxExponent=100000 returned Infinity although e^23000.9 = 1.45E+9989 is representable; Pow inherited it for bases with large exponents (long recorded as an open finding; repaired by an argument reduction with ln 10 once C12's enclosures were there to validate it)",
+  {"C12": [ar("exp", ctx(1, 100000, -100000, "down"), dec(230009, -1)), ar("exp", ctx(16, 100000, -100000, "half_even"), dec(2000005, -1, True)),
+           ar("pow", ctx(9, 100000, -100000, "half_even"), dec(9, 30000), dec(9, -1))]}),
  ("D26", "round Log10's result to the caller's exponent range",
   "Log10 ignored the caller's exponent range: Log10(1.09) P=1 Emin=0 returned 4E-2 (below Etiny)",
   {"C07": [ar("log10", ctx(1, 1, 0, "down"), dec(109, -2))]}),
